@@ -7,7 +7,7 @@ selection from the property text with exact integer arithmetic.
 """
 from __future__ import annotations
 
-from vlib.common import cbool, clist, cnat, copt, cz
+from vlib.common import cbool, clist, cnat, cz
 
 from props import c07 as G
 
@@ -249,13 +249,9 @@ def _ext_term(box):
 def _obj_term(case):
     kids = clist("{| kid_id := %s; kassoc := %s; kkind := %s; kvals := %s |}" % (
         cnat(kd["id"]), ASSOC[kd["assoc"]], KIND[kd["kind"]],
-        "None" if kd["vals"] is None else "(Some %s)" % G._vals_term(_pad(case, kd))) for kd in case["kids"])
+        "None" if kd["vals"] is None else "(Some %s)" % G._vals_term(kd["vals"])) for kd in case["kids"])
     return "{| ok := %s; verts := %s; cells := %s; kids := %s |}" % (
         OKIND[case["cls"]], clist(G._pt(p) for p in case["verts"]), clist(clist(cnat(v) for v in c) for c in case["cells"]), kids)
-
-
-def _pad(case, kd):
-    return kd["vals"]
 
 
 def _rmask_term(o):
